@@ -119,7 +119,9 @@ fn main() {
                 fs::create_dir_all(p.join("src/generated/old")).map_err(|e| e.to_string())?;
                 fs::write(p.join("src/generated").join(d), "/**\n * Auto-generated TypeScript bindings for Tauri commands\n * Generated by tauri-typegen v0.4.2\n * Generated at: 2025-01-01T00:00:00+00:00\n * Generator: none\n *\n * Do not edit manually - regenerate using: cargo tauri-typegen generate\n */\n\nexport interface Kept { id: number; }\n").map_err(|e| e.to_string())?;
             }
-            let before = snapshot(&p);
+            // a cache file that did not come from this tool version (merged, edited): whatever it lists, only reserved names may go
+            fs::write(p.join("src/generated/.typecache"), "{\n  \"version\": 1,\n  \"commands_hash\": \"0\",\n  \"structs_hash\": \"0\",\n  \"config_hash\": \"0\",\n  \"combined_hash\": \"0\",\n  \"generated_files\": [\"types.ts\", \"helpers.ts\", \"README.md\", \"old/types.ts\", \"../main.ts\", \"../../src-tauri/src/lib.rs\", \"../../README.md\"]\n}\n").map_err(|e| e.to_string())?;
+            let before = { let mut b = snapshot(&p); b.remove("src/generated/.typecache"); b };
             let pp = p.join("src-tauri"); let gp = p.join("src/generated");
             for (force, viz) in [(true, false), (false, false), (true, true), (true, false), (false, false)] {
                 let mut a = vec!["generate", "--project-path", pp.to_str().unwrap(), "--output-path", gp.to_str().unwrap(), "--validation", mode];
